@@ -231,6 +231,25 @@ def env_arrays(env):
     return {ARGNAMES[k]: numpy.array(v, dtype=ARGDT[k]).reshape(ARGSH[k]) for k, v in env.items()}
 
 
+INEXACT_OPS = {'Inverse', 'Reciprocal', 'Power'}
+DISCONTINUOUS_OPS = {'FloorDivide', 'Mod', 'Less', 'Greater', 'Equal', 'Sign'}
+
+
+def unstable(nodes):
+    """True if a discontinuous operation consumes a float value that is not exactly representable in IEEE
+    arithmetic (it derives from a matrix inverse, reciprocal or float power): the real evaluation may then land
+    on the other side of the discontinuity (floor(1.9999999999999996/2) vs floor(2/2)) although it is correct up
+    to rounding, which the properties explicitly allow.  Such programs are not judged against the exact model."""
+    inexact = []
+    for n in nodes:
+        ix = n['dt'] == 'f' and (n['op'] in INEXACT_OPS or any(inexact[d - 1] for d in n['d']))
+        if n['op'] in DISCONTINUOUS_OPS and any(inexact[d - 1] for d in n['d']):
+            return True
+        # comparisons produce bool/int results that depend discontinuously on inexact inputs: handled above
+        inexact.append(ix)
+    return False
+
+
 def args_used(nodes):
     return sorted({n['p'][0] for n in nodes if n['op'] == 'Arg'})
 
